@@ -1119,7 +1119,7 @@ def main(chk: core.Check) -> int:
     DG.regenerate(chk)    # T-dist: optuna/distributions.py -> Generated/DistMethods.lean (Props/C11DistGen proves it equal to the hand model)
     G11.regenerate(chk)   # T-transform: optuna/_transform.py -> Generated/TransformGen.lean (Props/C11Gen proves it equal to the hand model)
     if not getattr(chk, "no_prove", False):
-        chk.prove(G11.prove_modules("C11") + [DG.MODULE])
+        chk.prove(G11.prove_modules("C11") + DG.MODULES)
         G11.explain_proof_failure(chk)
         DG.explain_proof_failure(chk)
     beyond: list[Any] = []
